@@ -248,6 +248,18 @@ class Renderer:
 
     def render(self, e, host):
         k = e[0]
+        if k == 'e' and len(e) > 2 and e[2] == 'legacy':
+            # a reference through a link to a workbook of another format
+            # (legacy.xls: nothing the library can open), naming a sheet that
+            # the host book has as well; plain #REF! where no such link exists
+            if self.mode == 'file' and self.extlinks and \
+                    'legacy' in self.extlinks:
+                name = self.p.sheet(*host)['name']
+                if sheet_needs_quote(name):
+                    return "'[%d]%s'!A1" % (self.extlinks['legacy'],
+                                            name.replace("'", "''"))
+                return '[%d]%s!A1' % (self.extlinks['legacy'], name)
+            return e[1]
         if k in ('n', 's', 'b', 'e'):
             return self.lit(e)
         if k == 'raw':
